@@ -289,7 +289,147 @@ var c17Vals = map[string][]string{
 }
 var c17Regex = []string{"u.*", "up|m", "p", "x", ".*", ".+", "", "[xy]+", "prod|dev", "i[0-9]", "a'b", "^up$", "d"}
 
+// c17GenRegex draws a pattern from a small regular-expression grammar
+//
+//	pattern := alt ('|' alt){0,2}        (top-level alternation in 65 % of the draws)
+//	alt     := ['^'] ['.*'] atom ['.*'] ['$']
+//	atom    := lit | '(' lit '|' lit ')' | '(?:' lit ')' | lit '.+' | lit 's?' | lit '[0-9xy]' | lit lit
+//
+// and returns it with the literals it is built from. Stored label values are then derived from those literals
+// with characters added in front and behind (c17RegexValue), so that an unanchored search, a prefix / suffix
+// match and the full match Prometheus asks for give different answers.
+var c17Lits = []string{"err", "api", "web", "node", "up", "x", "prod", "db"}
+
+func c17GenRegex(rng *h.Rng) (string, []string) {
+	nalt := 1
+	if rng.Chance(65) {
+		nalt = rng.Range(2, 3)
+	}
+	var alts, cores []string
+	for i := 0; i < nalt; i++ {
+		lit := h.Pick(rng, c17Lits)
+		cores = append(cores, lit)
+		atom := lit
+		switch rng.Intn(10) {
+		case 0:
+			other := h.Pick(rng, c17Lits)
+			cores = append(cores, other)
+			atom = "(" + lit + "|" + other + ")"
+		case 1:
+			atom = "(?:" + lit + ")"
+		case 2:
+			atom = lit + ".+"
+		case 3:
+			atom = lit + "s?"
+		case 4:
+			atom = lit + "[0-9xy]"
+		case 5:
+			other := h.Pick(rng, c17Lits)
+			cores = append(cores, lit+other)
+			atom = lit + other
+		}
+		pre, suf := "", ""
+		if rng.Chance(35) {
+			pre = ".*"
+		}
+		if rng.Chance(35) {
+			suf = ".*"
+		}
+		if rng.Chance(6) {
+			pre = "^" + pre
+		}
+		if rng.Chance(6) {
+			suf += "$"
+		}
+		alts = append(alts, pre+atom+suf)
+	}
+	return strings.Join(alts, "|"), cores
+}
+
+// c17RegexValue: a stored value made from one of the pattern's literals: the literal itself, or with characters
+// added behind, in front, or on both sides (error / xweb / xapiy for err / web / api)
+func c17RegexValue(rng *h.Rng, cores []string) string {
+	c := h.Pick(rng, cores)
+	switch rng.Intn(9) {
+	case 0, 1:
+		return c
+	case 2:
+		return c + h.Pick(rng, []string{"or", "-exporter", "x", "s", "1", "y"})
+	case 3:
+		return h.Pick(rng, []string{"x", "my", "1", "a-"}) + c
+	case 4:
+		return h.Pick(rng, []string{"x", "my"}) + c + h.Pick(rng, []string{"y", "s1", "or"})
+	case 5:
+		return c + "s"
+	case 6:
+		return c + h.Pick(rng, []string{"1", "x", "y"})
+	case 7:
+		return c + h.Pick(rng, c17Lits)
+	}
+	return h.Pick(rng, c17Lits)
+}
+
+// c17GrammarMatcher rewrites a generated case so that one regular-expression matcher drawn from the grammar decides
+// the selection: the label it is on gets values derived from the pattern in most series.
+func c17GrammarMatcher(rng *h.Rng, c *c17E2ECase) {
+	pat, cores := c17GenRegex(rng)
+	if _, err := regexp.Compile("^(?:" + pat + ")$"); err != nil {
+		return
+	}
+	name := h.Pick(rng, []string{"job", "job", "env", "instance", "__name__"})
+	seen := map[string]bool{}
+	for i := range c.Series {
+		s := &c.Series[i]
+		if name == "__name__" || rng.Chance(80) {
+			v := c17RegexValue(rng, cores)
+			found := false
+			for j := range s.Labels {
+				if s.Labels[j][0] == name {
+					s.Labels[j][1] = v
+					found = true
+				}
+			}
+			if !found {
+				s.Labels = append(s.Labels, [2]string{name, v})
+			}
+		}
+		// label sets stay pairwise distinct (a fingerprint identifies a label set)
+		for k := 0; ; k++ {
+			st := append([][2]string(nil), s.Labels...)
+			sort.Slice(st, func(a, b int) bool { return st[a][0] < st[b][0] })
+			key := fmt.Sprint(st)
+			if !seen[key] {
+				seen[key] = true
+				break
+			}
+			for j := range s.Labels {
+				if s.Labels[j][0] == "__name__" {
+					s.Labels[j][1] += strconv.Itoa(k)
+					break
+				}
+			}
+		}
+	}
+	typ := "=~"
+	if rng.Chance(40) {
+		typ = "!~"
+	}
+	c.Matchers = []c17E2EMatcher{{typ, name, pat}}
+	if rng.Chance(30) {
+		c.Matchers = append(c.Matchers, c17E2EMatcher{"=~", "__name__", ".+"})
+	}
+}
+
 func c17GenE2E(rng *h.Rng) c17E2ECase {
+	c := c17GenE2EBase(rng)
+	if rng.Chance(35) {
+		c17GrammarMatcher(rng, &c)
+	}
+	return c
+}
+
+func c17GenE2EBase(rng *h.Rng) c17E2ECase {
+
 	c := c17E2ECase{Stream: "e2e", Start: c17Base + int64(rng.Intn(3))*15000 + int64(rng.Intn(2))*7, End: 0}
 	c.End = c.Start + int64(rng.Range(1, 5))*10
 	nser := rng.Range(1, 8)
@@ -415,7 +555,7 @@ func init() {
 		if tier != "quick" {
 			n = 20000
 		}
-		r.Rule += "; e2e: 1..8 series over label names {__name__, job, env, instance, a} (each non-name label present with probability 1/2; values incl. quote/backslash/space), types 2/0/1, 0..5 samples at start−1, start, inside, end, end+1; 1..4 matchers (6%: 9..10) of all four types on present and absent labels, regexes incl. unanchored-sensitive ones (p, x, d), empty and .*; non-trivial = ≥ 2 series and a matcher other than ="
+		r.Rule += "; e2e: 1..8 series over label names {__name__, job, env, instance, a} (each non-name label present with probability 1/2; values incl. quote/backslash/space), types 2/0/1, 0..5 samples at start−1, start, inside, end, end+1; 1..4 matchers (6%: 9..10) of all four types on present and absent labels, regexes incl. unanchored-sensitive ones (p, x, d), empty and .*; 35 % of the cases: one =~ / !~ matcher drawn from a regular-expression grammar (1..3 top-level alternatives, each with optional leading/trailing .*, user-written ^ $, groups, (?:), .+, ?, character classes) on a label whose stored values are the literals of the pattern with characters added in front / behind / both (err: error, xerr, xerry); non-trivial = ≥ 2 series and a matcher other than ="
 		return c17E2E(r, rng, n)
 	})
 	c17ReplayMore["e2e"] = func(r *h.Result, raw json.RawMessage) error {
